@@ -85,3 +85,13 @@ else:
         re.search(r"rv\s*=\s*nni_msg_insert\([^;]*;\s*if\s*\(rv", _b) is not None
     extra_text.append("Definition C01_PULLUP_CHECKS_INSERT : bool := %s.  (* message.c nni_msg_pull_up tests the result of nni_msg_insert *)"
                       % ("true" if _chk else "false"))
+
+# ws_start_read: the gate that stops reading while nobody receives ("we already have a data frame")
+_wst = src("src/supplemental/websocket/websocket.c")
+m = re.search(r"\nws_start_read\(nni_ws \*ws\)\s*\{.*?\n\}", _wst, re.S)
+if not m:
+    missing.append("ws_start_read in websocket.c")
+else:
+    extra_text.append("Definition C01_WS_READ_GATE_RXQ : bool := %s.  (* ws_start_read: if (nni_list_empty(&ws->recvq) && "
+                      "!nni_list_empty(&ws->rxq)) return; *)"
+                      % ("true" if re.search(r"if \(nni_list_empty\(&ws->recvq\) && !nni_list_empty\(&ws->rxq\)\) \{\s*return;", m.group(0)) else "false"))
